@@ -48,7 +48,7 @@ Verdict prop(Tape& t, Run& run) {
 			c.why = "generated graph cannot be saved";
 	}
 	else
-		c = decodeFileCase(t, run);
+		c = decodeFileCase(t, run, true, true);
 	if (!c.ok) {
 		run.exclude(c.why);
 		return OK;
@@ -61,7 +61,7 @@ Verdict prop(Tape& t, Run& run) {
 	auto detail = [&](const std::string& what, const std::string& diff) {
 		return J().s("kind", c.kind).s("subject", c.label).s("version", c.version).s("what", what).s("first_difference", diff).s("nif_hex", to_hex(c.bytes)).str();
 	};
-	const std::string sigBase = "C01:" + (c.kind == "synthN" ? std::string("multi") : c.kind == "graph" ? std::string("graph") : c.label) + "@" + c.version;
+	const std::string sigBase = "C01:" + (c.kind.rfind("synthN", 0) == 0 ? std::string("multi") : c.kind == "graph" ? std::string("graph") : c.label.substr(0, c.label.find(" ["))) + (c.kind.find("+unknown") != std::string::npos ? "+unknown" : "") + "@" + c.version;
 
 	// ---- raw
 	int rc = 0;
@@ -116,6 +116,7 @@ void deterministic(Run& run, const std::function<void(const std::vector<uint8_t>
 	const bool th = run.args.tier == "thorough";
 	enumerateFileCases(run, feed, th ? 8 : 3);
 	enumerateSweep(run, feed, th ? 24 : 8, th ? 32 : 24, th ? 8 : 3);
+	enumerateUnknownCases(run, feed);
 	// generated scene graphs: six versions x constant-byte tapes (the ones = 3 mod 4 carry the deep loose chain)
 	for (uint8_t v = 0; v < 6; v++)
 		for (uint8_t pat : {0x00, 0x03, 0x07, 0x63, 0xA3, 0xC7, 0xFF, 0x55, 0x9B}) {
